@@ -7,7 +7,10 @@
      R/T/L/RE    receipts: gas used, cumulative gas, bloom bits (Keccak instantiates the abstract
                  bit-setting functions of the model)
      VL/VR       calculateValidatorSetUpdates + UpdateWithChangeSet
-     B           validateBlock verdict class *)
+     B           validateBlock verdict class
+     J/JO/JC     a chain of blocks of StateDB operations executed by a node that keeps snapshots
+                 (reads through the diff layers, Cap after every block): the reads, the digest of
+                 the universe seen through the layers and the digest seen in the tries *)
 open Conv
 
 let sn = string_of_n
@@ -69,6 +72,39 @@ let rec doubles = function
 
 let b1 s = s = "1"
 
+(* ---- J: StateDB operations *)
+let parse_op (l : string list) : op =
+  match l with
+  | ["ca"; a] -> OCreate (nn a)
+  | ["ab"; a; v] -> OAdd (nn a, zz v)
+  | ["sb"; a; v] -> OSub (nn a, zz v)
+  | ["tr"; a; b; v] -> OTransfer (nn a, nn b, zz v)
+  | ["sn"; a; n] -> ONonce (nn a, nn n)
+  | ["sc"; a; h] -> OCode (nn a, nn h)
+  | ["ss"; a; k; v] -> OStore (nn a, nn k, nn v)
+  | ["sd"; a; b] -> OSuicide (nn a, nn b)
+  | ["sp"] -> OSnap
+  | ["rv"; k] -> ORevert (nat_of_int (int_of_string k))
+  | ["fi"] -> OFinalise
+  | ["ra"; a] -> OReadAcc (nn a)
+  | ["rs"; a; k] -> OReadSlot (nn a, nn k)
+  | _ -> failwith ("bad op: " ^ String.concat " " l)
+
+let str_view = function
+  | None -> "-"
+  | Some ((n, b), c) -> Printf.sprintf "%s/%s/%s" (sn n) (sz b) (sn c)
+let str_read = function
+  | RAcc v -> "a" ^ str_view v
+  | RSlot v -> "s" ^ sn v
+
+let universe_digest (bk : backend) (addrs : n list) (keys : n list) : string =
+  sha8 (String.concat "" (List.map (fun a ->
+      match bk.bk_acc a with
+      | None -> Printf.sprintf "%s:-;" (sn a)
+      | Some _ as v ->
+        Printf.sprintf "%s:%s:[%s];" (sn a) (str_view v)
+          (String.concat "" (List.map (fun k -> Printf.sprintf "%s=%s," (sn k) (sn (bk.bk_slot a k))) keys))) addrs))
+
 let () =
   let lines = ref (read_lines stdin) in
   let next () = match !lines with [] -> None | l :: t -> lines := t; Some (tokens l) in
@@ -77,6 +113,11 @@ let () =
   let perm : nat list ref = ref [] in
   let txs : txres list ref = ref [] in
   let last_vals : validator list ref = ref [] in
+  let jnode : node ref = ref (genesis_node []) in
+  let jkeep = ref 128 in
+  let jaddrs : n list ref = ref [] in
+  let jkeys : n list ref = ref [] in
+  let jops : op list ref = ref [] in
   let rec read_logs k acc =
     if k = 0 then List.rev acc else
       match next () with
@@ -104,6 +145,28 @@ let () =
       let touched = List.map (fun d -> d.d_addr) !pend in
       let proj c = List.filter (fun (a, _) -> List.mem a touched) c in
       Printf.printf "u %s %s\n" (sha8 (render (proj c1))) (sha8 (render (proj c2)));
+      loop ()
+    | Some ("J" :: keep :: rest) ->
+      let rec split acc = function
+        | "|" :: t -> (List.rev acc, t)
+        | x :: t -> split (x :: acc) t
+        | [] -> (List.rev acc, []) in
+      let (_, r1) = split [] rest in
+      let (a, r2) = split [] r1 in
+      jkeep := int_of_string keep; jaddrs := List.map nn a; jkeys := List.map nn r2;
+      jnode := genesis_node []; jops := [];
+      loop ()
+    | Some ("JO" :: o) -> jops := parse_op o :: !jops; loop ()
+    | Some ["JG"] ->
+      let (c0, _) = apply_block_trie [] (List.rev !jops) in
+      jnode := genesis_node c0; jops := [];
+      loop ()
+    | Some ["JC"] ->
+      let (n', reads) = apply_block_snap (nat_of_int !jkeep) !jnode (List.rev !jops) in
+      jnode := n'; jops := [];
+      Printf.printf "j r=[%s] S=%s T=%s\n" (String.concat "," (List.map str_read reads))
+        (universe_digest (bk_layers n'.n_layers n'.n_disk) !jaddrs !jkeys)
+        (universe_digest (bk_content n'.n_content) !jaddrs !jkeys);
       loop ()
     | Some ("R" :: _) -> txs := []; loop ()
     | Some ["T"; skipped; status; gas; nlogs] ->
